@@ -129,6 +129,19 @@ package proto
 //@   ensures version < 54459 && q.Compression <= 1 ==> arrayof(b.Buf)[end - nb - uvsize(nb) - 1] == q.Compression && arrayof(b.Buf)[end - nb - uvsize(nb) - 2] == 2 {stage-complete-then-compression-before-the-text}
 //@   ensures version >= 54459 && len(q.Parameters) == 0 ==> len(b.Buf) >= old(len(b.Buf)) + 4 + nb + uvsize(nb) && arrayof(b.Buf)[end - 1] == 0 && uvAt(arrayof(b.Buf), end - 1 - nb - uvsize(nb), nb) {empty-parameter-list-is-one-zero-byte-after-the-text}
 //@   ensures version >= 54459 && len(q.Parameters) == 0 ==> forall k in 0..nb :: arrayof(b.Buf)[end - 1 - nb + k] == q.Body[k] {text-before-the-parameter-list}
+//@ -- the middle of the packet, section by section (literal revisions): the client info directly
+//@ -- after the query id and only from 54420 on; settings only from 54429 on (as strings), always
+//@ -- closed by an empty key; the inter-server secret only from 54441 on; parameters only from 54459
+//@ callsite (ClientInfo).EncodeAware
+//@   assert version >= 54420 && len(b.Buf) == old(len(b.Buf)) + 1 + uvsize(len(q.ID)) + len(q.ID) {client-info-directly-after-the-query-id-from-54420}
+//@ callsite (Setting).Encode
+//@   assert version >= 54429 {settings-as-strings-from-54429}
+//@ callsite (*Buffer).PutString#3
+//@   assert version >= 54441 && arg1 == q.Secret {inter-server-secret-from-54441}
+//@ callsite (*Buffer).PutString#2
+//@   assert len(arg1) == 0 {settings-list-closed-by-an-empty-key}
+//@ callsite (Parameter).Encode
+//@   assert version >= 54459 {parameters-from-54459}
 //@ loop 0 (rangeindex)
 //@   modifies b.Buf
 //@   invariant -1 <= rangeindex && rangeindex < len(q.Settings)
